@@ -155,6 +155,18 @@ func (e *SpecEnv) eval(x ast.Expr) Val {
 			hi = e.intTerm(x.High)
 		}
 		return SliceV{Arr: sl.Arr, Off: tAdd(sl.Off, lo), Len: tSub(hi, lo), Cap: tSub(sl.Cap, lo), Nil: tFalse, Typ: sl.Typ}
+	case *ast.TypeAssertExpr:
+		v := e.eval(x.X)
+		iv, ok := v.(IfaceV)
+		if !ok || iv.Dyn == nil {
+			return e.fail("type assertion on a value whose dynamic type is not known: %s", exprString(x))
+		}
+		want := exprString(x.Type)
+		have := types.TypeString(iv.Dyn, func(p *types.Package) string { return "" })
+		if strings.TrimPrefix(have, ".") != want && have != want && strings.ReplaceAll(have, "*.", "*") != want {
+			return e.fail("type assertion %s: dynamic type is %s", exprString(x), have)
+		}
+		return iv.V
 	case *ast.CallExpr:
 		return e.call(x)
 	}
@@ -603,6 +615,24 @@ func (e *SpecEnv) call(x *ast.CallExpr) Val {
 		_ = addRng // range guards deliberately not added: the quantified statement then covers all integer arrays
 		_ = rng
 		return Scalar{mkForall(fmt.Sprintf("%s (%s Int) (%s Int)", strings.Join(binders, " "), on, ln), tImplies(g, body)), boolT}
+	case "isa":
+		// isa(x, *T): the interface value x holds a value of dynamic type *T
+		v := e.eval(x.Args[0])
+		iv, ok := v.(IfaceV)
+		if !ok {
+			return e.fail("isa needs an interface value")
+		}
+		if iv.Dyn == nil {
+			// not known on this path: an unconstrained truth value (the clause then has to hold without it)
+			return Scalar{st.c.fresh("isa_unknown", SBool), boolT}
+		}
+		want := exprString(x.Args[1])
+		have := strings.ReplaceAll(types.TypeString(iv.Dyn, func(p *types.Package) string { return "" }), "*.", "*")
+		have = strings.TrimPrefix(have, ".")
+		if have == want {
+			return Scalar{tTrue, boolT}
+		}
+		return Scalar{tFalse, boolT}
 	case "isnil":
 		v := e.eval(x.Args[0])
 		return Scalar{st.eqValNil(v, Scalar{Term{"ref_nil", SRef}, types.Typ[types.UntypedNil]}), boolT}
@@ -771,12 +801,21 @@ func (e *SpecEnv) quant(kind string, x *ast.CallExpr) Val {
 		kInt = Term{bn, SInt}
 	}
 	var guards []Term
-	lo := e.intTerm(args[1])
+	loInf := false
+	if u, ok := args[1].(*ast.UnaryExpr); ok && u.Op == token.SUB {
+		if id2, ok := u.X.(*ast.Ident); ok && id2.Name == "inf" {
+			loInf = true
+		}
+	}
+	lo := intLit(0)
+	if !loInf {
+		lo = e.intTerm(args[1])
+	}
 	hinf := false
 	if h, ok := args[2].(*ast.Ident); ok && h.Name == "inf" {
 		hinf = true
 	}
-	if !(ii.bv && hinf && lo.S == "0") {
+	if !(ii.bv && hinf && lo.S == "0") && !loInf {
 		guards = append(guards, tLe(lo, kInt))
 	}
 	if hinf {
@@ -793,12 +832,26 @@ func (e *SpecEnv) quant(kind string, x *ast.CallExpr) Val {
 	}
 	var t Term
 	if kind == "forall" && trigX != nil {
-		tv := sub.eval(trigX)
-		ts, ok := tv.(Scalar)
-		if !ok {
-			return e.fail("trigger must be a scalar term")
+		// trigger: one term, or trig(t1, t2, ...) for a multi-pattern
+		var trigExprs []ast.Expr
+		if ce, ok := trigX.(*ast.CallExpr); ok {
+			if id, ok := ce.Fun.(*ast.Ident); ok && id.Name == "trig" {
+				trigExprs = ce.Args
+			}
 		}
-		t = mkForall(fmt.Sprintf("(%s %s)", bn, ii.sort()), Term{fmt.Sprintf("(! %s :pattern (%s))", tImplies(tAnd(guards...), body).S, ts.T.S), SBool})
+		if trigExprs == nil {
+			trigExprs = []ast.Expr{trigX}
+		}
+		var pats []string
+		for _, tx := range trigExprs {
+			tv := sub.eval(tx)
+			ts, ok := tv.(Scalar)
+			if !ok {
+				return e.fail("trigger must be a scalar term")
+			}
+			pats = append(pats, ts.T.S)
+		}
+		t = mkForall(fmt.Sprintf("(%s %s)", bn, ii.sort()), Term{fmt.Sprintf("(! %s :pattern (%s))", tImplies(tAnd(guards...), body).S, strings.Join(pats, " ")), SBool})
 	} else if kind == "forall" {
 		t = mkForall(fmt.Sprintf("(%s %s)", bn, ii.sort()), tImplies(tAnd(guards...), body))
 	} else {
